@@ -45,6 +45,8 @@ def scripted_rng(rs):
     def fake(seed):
         if isinstance(seed, np.random.RandomState):
             return seed
+        if seed is None:
+            return real(None)          # numpy's global generator, as the real function does: a lost random_state stays visible
         return rs
     bg.check_random_state, bs.check_random_state = fake, fake
     try:
